@@ -987,3 +987,12 @@ def describe(tier):
             "the filter order is not pinned; only a zero quadrature response and a gain in [0.25, 0.75] at "
             "the corner frequencies are required",
         ])
+
+
+_describe_base = describe
+
+
+def describe(tier):     # noqa: F811 - the base description plus what later rounds added to the space
+    d = _describe_base(tier)
+    d["rule"] = d["rule"] + " " + 'Family history: 3 (quick) / 7 rates x 2 windows x 2 lengths x option cases; before preprocess other TimeSeries of the same time step are filtered with the same corners and orders 3, 2, 8, split and detrended; the windows are compared bit for bit with those computed in a process without history. Family mixed-dt: lists of 3-5 recordings whose time steps follow the patterns aba, baab, abcab, aab; the result must be the concatenation of the single-recording results.'
+    return d
